@@ -93,7 +93,8 @@ def analyse(code, isa, mm, sem, optimal=0, flags=False, timeout=10, lcd=True, st
 
 def cli_args(path, arch=None, fixed=False, ignore_unknown=False, flags=False, lines=None,
              timeout=10, yaml_out=None):
-    ns = types.SimpleNamespace()
+    import argparse
+    ns = argparse.Namespace()
     ns.arch = arch
     ns.fixed = fixed
     ns.lines = lines
